@@ -141,6 +141,7 @@ type RigConfig struct {
 	ReentrantPauseSiblings bool     // the other module answers "paused: insufficient balances" of one context by pausing its other contexts
 	ReentrantSelfKill      bool     // the other module answers a failed batch (response callback with an error) by killing that very context
 	ReentrantSelfStart     bool     // the other module answers a failed batch by starting that very context again (if it is paused)
+	ReentrantRespStartSibs bool     // the other module answers a failed batch of one context by starting its other (paused) contexts
 	ReentrantRestart       bool     // the other module reacts to a state callback (context paused for funds) by starting the context again at once
 	Reentrant              bool     // the other module reacts inside its callbacks: state callback -> kills that context; response callback with an error -> kills its other contexts
 	ResponseOnlyModules    []string // modules that registered a response callback but no state callback
@@ -154,12 +155,13 @@ type RigConfig struct {
 // (module "oracle") that GetExchangedPrice asks. The rate is a function of the pair and the block height only, so
 // it is part of no state; at the heights listed in FailAt the service answers with an error code.
 type FXSpec struct {
-	Rates  map[string][]string // pair "cent-stake" -> rates, indexed by height modulo the length
-	FailAt []int64
+	Rates     map[string][]string // pair "cent-stake" -> rates, indexed by height modulo the length
+	FailAt    []int64
+	NoService bool // the host has the token module but never registered an exchange-rate service
 }
 
 func (f *FXSpec) Rate(pair string, h int64) (string, bool) {
-	if f == nil {
+	if f == nil || f.NoService {
 		return "", false
 	}
 	for _, x := range f.FailAt {
@@ -260,7 +262,7 @@ func NewRig(cfg RigConfig) *Rig {
 		tk = fxTokenKeeper{}
 	}
 	r.sk = servicekeeper.NewKeeper(appCodec, r.keys[stService], r.ak, r.bk, tk, sub(servicetypes.ModuleName), authtypes.FeeCollectorName)
-	if cfg.FX != nil {
+	if cfg.FX != nil && !cfg.FX.NoService {
 		if err := r.sk.RegisterModuleService(servicetypes.RegisterModuleName, fxService(cfg.FX)); err != nil {
 			panic(err)
 		}
@@ -291,6 +293,22 @@ func NewRig(cfg RigConfig) *Rig {
 			if rc, ok := r.sk.GetRequestContext(ctx, id); ok && cfg.ReentrantSelfStart && err != nil {
 				if r.sk.StartRequestContext(ctx, id, rc.Consumer) == nil {
 					rec.log = append(rec.log, CallbackRec{Kind: "selfstart", Ctx: hexs(id)})
+				}
+			}
+			if cfg.ReentrantRespStartSibs && err != nil {
+				var others [][]byte
+				var consumers []sdk.AccAddress
+				r.sk.IterateRequestContexts(ctx, func(oid tmbytes.HexBytes, oc servicetypes.RequestContext) bool {
+					if oc.ModuleName == mod && !bytes.Equal(oid, id) {
+						others = append(others, append([]byte{}, oid...))
+						consumers = append(consumers, oc.Consumer)
+					}
+					return false
+				})
+				for i := range others {
+					if r.sk.StartRequestContext(ctx, others[i], consumers[i]) == nil {
+						rec.log = append(rec.log, CallbackRec{Kind: "start", Ctx: hexs(others[i])})
+					}
 				}
 			}
 			if rc, ok := r.sk.GetRequestContext(ctx, id); ok && cfg.ReentrantSelfKill && err != nil {
